@@ -68,6 +68,25 @@ def _root_name(n):
     return n.id if isinstance(n, ast.Name) else None
 
 
+# pandas / numpy operations that return a new object (never their receiver)
+NEW_OBJECT_METHODS = {'add', 'sub', 'mul', 'div', 'truediv', 'astype', 'copy', 'sum', 'count', 'size', 'mean', 'fillna', 'reindex',
+                      'value_counts', 'concat', 'groupby', 'agg', 'dropna', 'reset_index', 'to_frame'}
+
+
+def _fresh_arg(a):
+    """is the expression a freshly created object (so that a helper may mutate it): a copying constructor, an arithmetic
+    expression, or a pandas operation that returns a new object"""
+    if isinstance(a, ast.BinOp):
+        return True
+    if isinstance(a, ast.Call):
+        last = src(a.func).split('.')[-1]
+        if last in FRESH_CALLS:
+            return True
+        if isinstance(a.func, ast.Attribute) and last in NEW_OBJECT_METHODS:
+            return True
+    return False
+
+
 def _is_fresh_value(v):
     if isinstance(v, ast.Call):
         return True
@@ -225,15 +244,13 @@ def check_fold_pure(ctx, R):
         bad = None
         for fn, c in sites:
             a = c.args[idx]
-            fresh = False
-            if isinstance(a, ast.Call) and (src(a.func).split('.')[-1] in FRESH_CALLS):
-                fresh = True
+            fresh = _fresh_arg(a)
             if isinstance(a, ast.Name):
                 defs = [s for s in own_nodes(fn.node) if isinstance(s, ast.Assign) and any(
                     isinstance(t, ast.Name) and t.id == a.id for t in s.targets) and s.lineno < c.lineno]
                 if defs:
                     v = sorted(defs, key=lambda s: s.lineno)[-1].value
-                    fresh = isinstance(v, ast.Call) and src(v.func).split('.')[-1] in FRESH_CALLS
+                    fresh = _fresh_arg(v)
             if not fresh:
                 bad = (fn, c)
         R.ob('FOLD-PURE', ctx.construct(callee), 'param%d-callers-pass-fresh' % idx, bad is None and bool(sites),
@@ -816,20 +833,25 @@ def check_decay_unreachable(ctx, R):
          'EWMean (on_old is a stub returning None) is constructed outside an Expanding window: %s'
          % ', '.join('%s:%d' % (f.qual, n.lineno) for f, n in sites if not (f.cls is not None and exp in f.cls.mro)),
          ctx.where(sites[0][0], sites[0][1].lineno) if sites else None)
-    agg = exp.methods.get('aggregate')
-    okd = False
-    if agg is not None and 'aggregate' not in ewm.methods:
-        # on symbolic paths (helper extraction / temporaries transparent): every path hands diff=aggregations.diff_expanding over
-        from ..symexpr import SymEval, nf
-        ps = [r for r in SymEval(M, exp).run(agg) if not r.raised]
-        okd = bool(ps)
+    # on symbolic paths (helper extraction / overridden hooks / temporaries transparent): for Expanding and every subclass
+    # (EWM), every path of the MRO-resolved aggregate() hands diff=aggregations.diff_expanding over
+    from ..symexpr import SymEval, nf
+    agg = exp.find('aggregate')
+    okd = agg is not None
+    for c in [exp] + [x for x in M.subclasses(exp) if x is not exp]:
+        afn = c.find('aggregate')
+        if afn is None:
+            okd = False
+            continue
+        ps = [r for r in SymEval(M, c).run(afn) if not r.raised]
+        okd = okd and bool(ps)
         for r in ps:
-            acc_calls = [c for c, s_, l in r.calls if isinstance(c, ast.Call) and isinstance(c.func, ast.Attribute)
-                         and c.func.attr == 'accumulate_partitions']
+            acc_calls = [cl for cl, s_, l in r.calls if isinstance(cl, ast.Call) and isinstance(cl.func, ast.Attribute)
+                         and cl.func.attr == 'accumulate_partitions']
             if len(acc_calls) != 1 or not any(k.arg == 'diff' and nf(k.value) in ('aggregations.diff_expanding', 'diff_expanding')
                                               for k in acc_calls[0].keywords):
                 okd = False
-    R.ob('DECAY-UNREACHABLE', ctx.construct(agg) if agg else DFC + '.Expanding', 'diff_expanding', okd,
+    R.ob('DECAY-UNREACHABLE', DFC + '.Expanding.aggregate', 'diff_expanding', okd,
          'Expanding.aggregate does not use diff_expanding (or EWM overrides aggregate)', ctx.where(agg, agg.node.lineno) if agg else None)
     de = M.function(AGG, 'diff_expanding')
     rets = [r for r in own_nodes(de.node) if isinstance(r, ast.Return)]
@@ -869,9 +891,21 @@ def check_agg_table(ctx, R):
         if fn is None:
             raise AnalysisError('anchor vanished: %s.%s' % (cname, mname))
         used = set()
-        for n in own_nodes(fn.node):
-            if isinstance(n, ast.Attribute) and isinstance(n.value, ast.Name) and n.value.id == 'aggregations' and n.attr in aggnames:
-                used.add(n.attr)
+        seen, todo = set(), [fn]
+        while todo:
+            g = todo.pop()
+            if g.fq in seen:
+                continue
+            seen.add(g.fq)
+            for n in own_nodes(g.node):
+                if isinstance(n, ast.Attribute) and isinstance(n.value, ast.Name) and n.value.id == 'aggregations' and n.attr in aggnames:
+                    used.add(n.attr)
+                # a sibling method that hands the aggregation over (apply -> full)
+                if isinstance(n, ast.Call) and isinstance(n.func, ast.Attribute) and isinstance(n.func.value, ast.Name) \
+                        and n.func.value.id == 'self' and (cname, n.func.attr) in AGG_TABLE:
+                    h = cls.find(n.func.attr)
+                    if h is not None:
+                        todo.append(h)
         R.ob('AGG-TABLE', ctx.construct(fn), mname, used == allowed,
              '%s.%s hands over %s, its name promises %s' % (cname, mname, sorted(used), sorted(allowed)), ctx.where(fn, fn.node.lineno))
     # std = var ** 0.5
